@@ -270,4 +270,59 @@ theorem chain_fwd12 (N : Nat) : ∀ (k n : Nat) (two : Bool) (o : List Bool), n 
           have h1 : ¬ (n' + 1 + 1 = N) := by omega
           simp [h1, isChain, this]
 
+theorem chain_bwd12 (N : Nat) : ∀ (k : Nat) (two : Bool) (o : List Bool), 1 ≤ k → k ≤ N →
+    isChainDown (if two then k else k - 1) 0 (updsOf N (tdvp12Bwd N k two o).1) = true := by
+  intro k
+  induction k with
+  | zero => intro two o h; omega
+  | succ k ih =>
+    intro two o _ hk
+    rcases hE : enlOut N k o with ⟨e, o1⟩
+    have he : e = true → k ≠ 0 := by
+      intro h; have := enlOut_true (N := N) (m := k) (o := o) (by rw [hE]; exact h); exact this.1
+    cases two with
+    | false =>
+      cases e with
+      | true =>
+        rcases hR : tdvp12Bwd N k true o1 with ⟨rest, o2⟩
+        have := ih true o1 (by have := he rfl; omega) (by omega)
+        rw [hR] at this
+        simp only [tdvp12Bwd, hE, Bool.not_false, ↓reduceIte, hR, updsOf]
+        simpa using this
+      | false =>
+        rcases hR : tdvp12Bwd N k false o1 with ⟨rest, o2⟩
+        simp only [tdvp12Bwd, hE, Bool.not_false, ↓reduceIte, hR, updsOf, updsOf_append,
+          updsOf_tdvp1Step_first N k (by omega), Bool.false_eq_true]
+        by_cases hk0 : k = 0
+        · subst hk0
+          simp only [tdvp12Bwd, Prod.mk.injEq] at hR
+          simp [← hR.1, isChainDown, updsOf]
+        · have := ih false o1 (by omega) (by omega)
+          rw [hR] at this
+          simp only [Bool.false_eq_true, ↓reduceIte] at this
+          simp [hk0, isChainDown, this]; omega
+    | true =>
+      cases e with
+      | true =>
+        rcases hR : tdvp12Bwd N k true o1 with ⟨rest, o2⟩
+        have := ih true o1 (by have := he rfl; omega) (by omega)
+        rw [hR] at this
+        simp only [↓reduceIte] at this
+        simp only [tdvp12Bwd, hE, Bool.not_true, Bool.false_eq_true, ↓reduceIte, hR, updsOf_append, updsOf_updAA,
+          updsOf_updA, updsOf, List.cons_append, List.nil_append]
+        simp [isChainDown, this]
+      | false =>
+        rcases hR : tdvp12Bwd N k false o1 with ⟨rest, o2⟩
+        simp only [tdvp12Bwd, hE, Bool.not_true, Bool.false_eq_true, ↓reduceIte, hR, updsOf_append, updsOf_updAA,
+          updsOf_updC, updsOf, List.cons_append, List.nil_append]
+        by_cases hk0 : k = 0
+        · subst hk0
+          simp only [tdvp12Bwd, Prod.mk.injEq] at hR
+          simp [← hR.1, isChainDown, updsOf]
+        · have := ih false o1 (by omega) (by omega)
+          rw [hR] at this
+          simp only [Bool.false_eq_true, ↓reduceIte] at this
+          have h1 : ¬ (k = 0 ∨ k = N) := by omega
+          simp [h1, isChainDown, this]; omega
+
 end YModel.Sched
